@@ -180,6 +180,14 @@ def judge_prefix(fmt, path, spec, full, prefix=None, complete=None):
     if alt is not None:
         for k, a in got.items():
             if k in ('TFLAG', 'ETFLAG'):
+                # the time flags of the exposed steps are those of the same
+                # steps of the full file
+                if k in fv and gnt is not None and (
+                        a.shape[0] != gnt or not np.array_equal(
+                            a, np.asarray(fv[k])[:gnt])):
+                    return 'returned', 'prefix is a valid shorter %s ' \
+                        'file; its %s differs from the same steps of the ' \
+                        'full file (%d steps exposed)' % (fmt, k, gnt)
                 continue
             if k not in alt['vars']:
                 return 'returned', 'prefix is a valid %s file with ' \
